@@ -197,6 +197,9 @@ func (w *World) VerifyFunc(fn *ssa.Function, fc *FuncContract, timeoutS int) *Fu
 	if err := func() (err error) {
 		defer func() {
 			if r := recover(); r != nil {
+				if os.Getenv("GOVC_TRACE") != "" {
+					panic(r)
+				}
 				err = fmt.Errorf("%s: internal error while encoding: %v", e.fnLabel, r)
 			}
 		}()
